@@ -169,9 +169,10 @@ static void take_snap(const struct cstl_hash *h, struct snap *s)
         const struct cstl_hash_node *n = h->bucket.at[b].n; int steps = 0;
         s->dirty[b] = s->pending && b < s->count && h->bucket.at[b].cst != h->bucket.cst;
         s->ndirty += s->dirty[b];
-        while (n != NULL && steps++ <= N) {
+        /* a chain ends at NULL or at any node that is not a pool element (an implementation may terminate chains with a sentinel node of its own);
+         * what the library does with a link that leads nowhere sensible is judged by find, foreach and the sanitizer, not here */
+        while (n != NULL && idx_of_node(n) >= 0 && steps++ <= N) {
             i = idx_of_node(n);
-            if (i < 0) { s->bad = 1; break; }
             if (s->bucket_of[i] < 0) s->bucket_of[i] = (int)b;
             s->nnodes[b]++;
             n = n->next;
@@ -307,7 +308,7 @@ static void keyed_post(const char *what, int own_elem)
     int lookup = !strcmp(what, "find");
     int i, srcs[MAXB], nsrc = 0, cleaned = 0, cleaned_nodes = 0; size_t b;
     take_snap(T, &post);
-    MC_CHECK(PALL, !post.bad && !pre.bad, "bucket chains are corrupt (cycle, foreign node or count beyond capacity)");
+    MC_CHECK(PALL, !post.bad && !pre.bad, "bucket chains are corrupt (cycle or count beyond capacity)");
     if (post.bad || pre.bad) return;
     if (!pre.pending) {
         MC_COUNT(K_KEYED_SETTLED);
@@ -338,11 +339,16 @@ static void keyed_post(const char *what, int own_elem)
     if (post.pending) MC_CHECK(PC19, post.ndirty < pre.ndirty, "%s: number of dirty buckets did not fall (%d -> %d)", what, pre.ndirty, post.ndirty);
 }
 
+/* The node of an element that is not in the table holds stale bytes (the API takes uninitialised nodes): before every operation it gets a wrong key and a
+ * plausible stale link (the next pool element's node), so that an insert relying on either being already set is seen and the content of such nodes is a
+ * function of the state. */
+static void scrub_free(void) { int i; for (i = 0; i < N; i++) if (!m_member[i]) { pool[i].hn.key = ~(size_t)keys[i]; pool[i].hn.next = &pool[(i + 1) % N].hn; } }
 static void w_apply(mc_op_t o)
 {
     int a = OA(o), b = OB(o), ab = 0, i;
     static void * volatile rp;
     static volatile int r;
+    scrub_free();
     switch (OC(o)) {
     case O_INSERT:
         if (mc_checking) keyed_pre();
@@ -497,7 +503,7 @@ static void w_audit(void)
     int ab, j, k; static volatile int r; struct snap s;
     MC_CHECK(PC03, cstl_hash_size(T) == (size_t)m_count, "size = %zu, reference holds %d", cstl_hash_size(T), m_count);
     take_snap(T, &s);
-    MC_CHECK(PALL, !s.bad, "bucket chains are corrupt (cycle, foreign node or count beyond capacity)");
+    MC_CHECK(PALL, !s.bad, "bucket chains are corrupt (cycle or count beyond capacity)");
     if (s.bad) return;
     if (s.pending && s.rhcount > s.count) MC_COUNT(K_FOREACHC_PENDING_GROW);
     /* foreach_const is not a transition (it does not touch the table): evaluated in every state */
@@ -530,7 +536,7 @@ static void w_audit(void)
         if (m_freq != F_MUL) MC_CHECK(PC19, fid(s.pending ? T->bucket.rh.hash : T->bucket.hash) == m_freq, "the table is heading for hash function #%d, the most recent request was #%d", fid(s.pending ? T->bucket.rh.hash : T->bucket.hash), m_freq);
     }
     MC_CHECK(PC03 | PC04, vbad == 0, "a visit callback received a private pointer other than the one the caller passed (%d calls)", vbad);
-    for (k = 0; k < N; k++) MC_CHECK(PC03, pool[k].pad == 0x1111 && pool[k].tail == 0x2222 && pool[k].idx == k && pool[k].pad2 == 0x3333 && pool[k].hn.key == (size_t)keys[k] && pool[k].hn2.key == (size_t)keys[k], "element %d: key or bytes outside its hash node were modified", k);
+    for (k = 0; k < N; k++) MC_CHECK(PC03, pool[k].pad == 0x1111 && pool[k].tail == 0x2222 && pool[k].idx == k && pool[k].pad2 == 0x3333 && (!m_member[k] || pool[k].hn.key == (size_t)keys[k]) && pool[k].hn2.key == (size_t)keys[k], "element %d: key or bytes outside its hash node were modified", k);
 }
 
 /* canonical key */
@@ -547,7 +553,7 @@ static void canon_one(int t)
         const struct cstl_hash_node *n = h->bucket.at[b].n; int steps = 0;
         KB_C('['); if (s.pending && b < s.count) KB_C(s.dirty[b] ? 'd' : 'c');
         else if (s.pending) KB_C(h->bucket.at[b].cst == h->bucket.cst ? 'c' : 'D');
-        while (n != NULL && steps++ <= N) { KB_U((unsigned)idx_of_node(n)); KB_C(','); n = n->next; }
+        while (n != NULL && idx_of_node(n) >= 0 && steps++ <= N) { KB_U((unsigned)idx_of_node(n)); KB_C(','); n = n->next; }
         KB_C(']');
     }
 }
